@@ -14,6 +14,7 @@
 #include <new>
 #include <vector>
 #include <string>
+#include <sys/mman.h>
 
 #if defined(__SANITIZE_ADDRESS__)
 #define VF_ASAN 1
@@ -67,6 +68,15 @@ struct AllocState {
     unsigned double_free = 0, foreign_free = 0, mismatch_free = 0, canary = 0;
     char first_event[96] = {0};
     bool bypass = false;  // harness-internal allocation: no counting, faults or tracking
+    // very large requests served lazily (address space only, pages appear when touched): lets a stage hold objects of
+    // 2^31 / 2^32 elements without paying for the memory.  Never filled, never kept after free, never in the registry.
+    bool huge_lazy = false;
+    struct Huge {
+        void *ptr;
+        size_t size, map_size;
+        bool live, array;
+    } huge[16] = {};
+    unsigned n_huge = 0;
     // registry
     std::vector<Block> *blocks = nullptr;
     uint32_t next_id = 1;
@@ -127,6 +137,22 @@ inline void *raw_alloc(size_t n, bool array)
         a.oversize = true;
         throw std::bad_alloc();
     }
+    if (a.huge_lazy && n >= (size_t(64) << 20) && !a.bypass) {
+        if (a.n_huge == 16) {  // drop the records of blocks that are gone
+            unsigned k = 0;
+            for (unsigned i = 0; i < 16; ++i)
+                if (a.huge[i].live) a.huge[k++] = a.huge[i];
+            a.n_huge = k;
+            if (k == 16) throw std::bad_alloc();
+        }
+        size_t map_size = (sizeof(BlockHdr) + n + 8 + 4095) & ~size_t(4095);
+        char *raw = (char *)mmap(nullptr, map_size, PROT_READ | PROT_WRITE, MAP_PRIVATE | MAP_ANONYMOUS | MAP_NORESERVE, -1, 0);
+        if (raw == (char *)MAP_FAILED) throw std::bad_alloc();
+        void *user = raw + sizeof(BlockHdr);
+        memcpy(raw + sizeof(BlockHdr) + n, &TAIL_MAGIC, 8);
+        a.huge[a.n_huge++] = AllocState::Huge{user, n, map_size, true, array};
+        return user;
+    }
     char *raw = (char *)malloc(sizeof(BlockHdr) + n + 8);
     if (!raw) throw std::bad_alloc();
     BlockHdr *h = (BlockHdr *)raw;
@@ -151,6 +177,33 @@ inline void raw_free(void *p, bool array)
 {
     if (!p) return;
     AllocState &a = g_alloc;
+    int hidx = -1;  // the address of an unmapped block is handed out again by the kernel: a live record wins over dead ones
+    for (unsigned i = 0; i < a.n_huge; ++i)
+        if (a.huge[i].ptr == p && (hidx < 0 || a.huge[i].live)) hidx = (int)i;
+    if (hidx >= 0) {
+        {
+            AllocState::Huge &hg = a.huge[hidx];
+            if (!hg.live) {
+                ++a.double_free;
+                note_event("double free");
+                return;
+            }
+            ++a.n_frees;
+            if (hg.array != array) {
+                ++a.mismatch_free;
+                note_event(array ? "delete[] of block from scalar new" : "delete of block from new[]");
+            }
+            uint64_t tail;
+            memcpy(&tail, (char *)p + hg.size, 8);
+            if (tail != TAIL_MAGIC) {
+                ++a.canary;
+                note_event("write past the end of a heap block");
+            }
+            hg.live = false;
+            munmap((char *)p - sizeof(BlockHdr), hg.map_size);
+            return;
+        }
+    }
     BlockHdr *h = (BlockHdr *)((char *)p - sizeof(BlockHdr));
 #ifdef VF_ASAN
     // a foreign pointer may have no addressable header at all
@@ -260,6 +313,25 @@ inline const Block *find_block(const void *p)
     for (auto &b : *g_alloc.blocks)
         if ((const char *)p >= (const char *)b.ptr && (const char *)p < (const char *)b.ptr + b.size + 1) return &b;
     return nullptr;
+}
+inline size_t live_huge()
+{
+    size_t n = 0;
+    for (unsigned i = 0; i < g_alloc.n_huge; ++i) n += g_alloc.huge[i].live;
+    return n;
+}
+inline const AllocState::Huge *find_huge(const void *p)
+{
+    for (unsigned i = 0; i < g_alloc.n_huge; ++i)
+        if (g_alloc.huge[i].live && p == g_alloc.huge[i].ptr) return &g_alloc.huge[i];
+    return nullptr;
+}
+// forget the huge records (unmapping what is still mapped)
+inline void huge_reset()
+{
+    for (unsigned i = 0; i < g_alloc.n_huge; ++i)
+        if (g_alloc.huge[i].live) munmap((char *)g_alloc.huge[i].ptr - sizeof(BlockHdr), g_alloc.huge[i].map_size);
+    g_alloc.n_huge = 0;
 }
 inline size_t live_tracked()
 {
